@@ -81,9 +81,9 @@ _STATES = re.compile(r"(\d+) states generated, (\d+) distinct states found")
 _DEPTH = re.compile(r"The depth of the complete state graph search is (\d+)")
 
 
-def _tlc_env(trace=None, xmx="3g", extra_env=None):
+def _tlc_env(trace=None, xmx="3g", extra_env=None, tmpdir=None):
     e = dict(os.environ)
-    e["JAVA_TOOL_OPTIONS"] = f"-Xss1g -Xmx{xmx}"
+    e["JAVA_TOOL_OPTIONS"] = f"-Xss1g -Xmx{xmx}" + (f" -Djava.io.tmpdir={tmpdir}" if tmpdir else "")
     e.setdefault("EXPLAIN", "0")
     if trace:
         e["TRACE"] = trace
@@ -108,7 +108,7 @@ def tlc(module, cfg=None, workers=1, timeout=1800, trace=None, tag=None, xmx="3g
         cmd += extra
     cmd += [module + ".tla"]
     t0 = time.time()
-    p = subprocess.run(cmd, cwd=SPEC, env=_tlc_env(trace, xmx, extra_env), stdout=subprocess.PIPE,
+    p = subprocess.run(cmd, cwd=SPEC, env=_tlc_env(trace, xmx, extra_env, tmpdir=md), stdout=subprocess.PIPE,
                        stderr=subprocess.STDOUT, text=True)
     wall = time.time() - t0
     shutil.rmtree(md, ignore_errors=True)
